@@ -12,6 +12,7 @@ fn main() {
         Some("initd") => initd::main(&args[2..]),
         Some("sectors") => sectors::main(&args[2..]),
         Some("evm17") => evm::main(&args[2..]),
+        Some("evm18") => evm18::main(&args[2..]),
         Some("verif") => verif::main(&args[2..]),
         _ => {
             eprintln!("usage: drive <subsystem> ...");
